@@ -816,6 +816,7 @@ class Rewriter:
             self.fired('R35:closure-is-the-relation')
         b = self.sub('R22:slice-cloned-iter', r'\bother\.iter\(\)\.cloned\(\)', 'slice_cloned_iter(hs, other)', b)
         b = self.sub('R22:cloned-items', r'\biter\.into_iter\(\)\.cloned\(\)', 'iter.into_iter()', b)      # a copy of a token is the token
+        b = self.sub('R22:slice-index', r'\b(?:Index::index|IndexMut::index_mut)\(&(?:mut )?\*\*self, index\)', 'slice_index(hs, self.deref(hs), index)', b)
         b = self.sub('R22:slice-hash', r'\bHash::hash\(&\*\*self, (\w+)\)', r'slice_hash(hs, self.as_slice(), \1, hl)', b)
         b = self.sub('R22:slice-cloned-iter', r'\bself\.iter\(\)\.cloned\(\)', 'slice_cloned_iter(hs, self.as_slice())', b)
         b = self.sub('R22:model-type', r'(?<![\w:])Vec::new_in\(', 'VecM::new_in(hs, ', b)
@@ -873,6 +874,9 @@ class Rewriter:
         b = self.sub('R25:str-forward', r'\(\*\*self\)\.hash\((\w+)\)', r'str_hash(hs, self.deref(hs), \1, cl)', b)
         b = self.sub('R25:str-forward', r'\b(\w+)\.write_str\(self\)', r'formatter_write_str(hs, self.deref(hs), \1, cl)', b)
         b = self.sub('R25:str-forward', r'\bself\.vec\.hash\((\w+)\)', r'bytes_hash(hs, self.vec.as_slice(), \1, cl)', b)
+        b = self.sub('R25:str-index', r'&(?:mut )?self\[\.\.\]\[index\]', 'str_index(hs, self.deref(hs), index)', b)
+        b = self.sub('R25:str-index', r'\b(?:Index::index|IndexMut::index_mut)\(&(?:mut )?\*\*self, index\)', 'str_index(hs, self.deref(hs), index)', b)
+        b = self.sub('R25:str-from-utf8', r'(?<![\w:])str::from_utf8_unchecked_mut\(&mut \*self\.vec\)', 'str_from_utf8_unchecked(hs, &self.vec)', b)
         b = self.sub('R25:bytes-of-vec', r'(?m)^(\s*)&self\.vec\s*$', r'\1self.vec.deref(hs)', b)
         b = self.sub('R25:err-bytes', r'(?m)^(\s*)self\.bytes\s*$', r'\1e.bytes', b)
         b = self.sub('R25:owned-item', r'\bself\.push_str\(&s\)', 'self.push_str(s)', b)
